@@ -170,7 +170,7 @@ def make_check(real_envs, complex_envs):
             usable = []
             from ufl.corealg.traversal import unique_pre_traversal
 
-            nodes = [n for n in unique_pre_traversal(res) if hasattr(n, "ufl_shape") and type(n).__name__ not in ("MultiIndex", "Label")]
+            nodes = [n for n in unique_pre_traversal(res) if type(n).__name__ not in ("MultiIndex", "Label")]
             for env in real_envs:
                 # every SUBexpression must stay in the reals (abs(ln(g)) is real-valued although ln(g) is not for g < 0)
                 try:
